@@ -29,6 +29,9 @@ type Op struct {
 	// previous) is applied to the node's chain just before (reorg: only that).
 	Back  uint64 `json:"back,omitempty"`
 	Reorg string `json:"reorg,omitempty"`
+	// AccountsFault (head): while the event is handled the accounts provider fails ("error")
+	// or returns no accounts ("empty") when the controller asks for the validating accounts
+	AccountsFault string `json:"accounts_fault,omitempty"`
 	// fail: the next duty request of this kind (att | prop | sync) fails
 	// hold: the node becomes slow for this kind: requests wait until "release" (or a restart)
 	FailKind string `json:"fail_kind,omitempty"`
@@ -262,6 +265,9 @@ func genCase(t *rapid.T) Case {
 					op.Reorg = "current"
 				}
 			}
+			if kind == "headReorg" && rapid.IntRange(0, 5).Draw(t, "accountsFault") == 0 {
+				op.AccountsFault = rapid.SampledFrom([]string{"error", "empty"}).Draw(t, "accountsFaultMode")
+			}
 			c.Ops = append(c.Ops, op)
 		case "reorg":
 			depth := rapid.SampledFrom([]string{"current", "previous"}).Draw(t, "silentDepth")
@@ -376,6 +382,7 @@ func run(c *Case) result {
 			res.harness = err
 		}
 		res.st = j.st
+		res.st.droppedJobs = w.Dropped()
 		return res
 	}
 	if err := w.AdvanceTo(w.StartOfSlot(c.StartSlot).Add(time.Duration(c.StartOffsetMs) * time.Millisecond)); err != nil {
@@ -406,7 +413,11 @@ func run(c *Case) result {
 				w.Chain.ReorgPrevious(w.Epoch())
 			}
 			if op.Kind == "head" {
+				if op.AccountsFault != "" {
+					w.Accounts.FailNext(3, op.AccountsFault)
+				}
 				err = w.Head(op.Back)
+				w.Accounts.FailNext(0, "")
 			}
 		case "fail":
 			w.Chain.FailNext(op.FailKind, 1)
@@ -446,6 +457,8 @@ func check(t ev.TB, c *Case) {
 	add(st.genesisStart, "start-at-genesis-having-waited")
 	add(st.providerErrors > 0, "provider-error")
 	add(st.slowNode, "slow-node")
+	add(st.accountsFaults > 0, "accounts-provider-fault-during-refresh")
+	add(st.droppedJobs > 0, "job-dropped-because-its-context-was-done")
 	add(st.straddled > 0, "duty-request-answered-in-a-later-slot")
 	add(st.lateHeadRootChange > 0, "late-head-event-with-root-change")
 	add(st.crossEpochLate > 0, "late-head-event-of-the-previous-epoch")
